@@ -150,6 +150,8 @@ type c11Sim struct {
 	maxBurst int64  // bytes
 
 	packets int64 // total datagrams handed to OnPacketSent (statistics)
+
+	by *c11Sim // a second sender living in the same process (part two-senders), stepped after every step
 }
 
 type c11Snap struct {
@@ -165,6 +167,7 @@ type c11Snap struct {
 	nGrp     int
 	lastGrpB int64
 	nHist    int
+	by       *c11Snap
 }
 
 func c11CeilDiv(a, b uint64) uint64 { return (a + b - 1) / b }
@@ -197,6 +200,10 @@ func (s *c11Sim) save() c11Snap {
 	if n := len(s.grpB); n > 0 {
 		sn.lastGrpB = s.grpB[n-1]
 	}
+	if s.by != nil {
+		b := s.by.save()
+		sn.by = &b
+	}
 	return sn
 }
 
@@ -207,6 +214,9 @@ func (s *c11Sim) restore(sn *c11Snap) {
 	s.grpT, s.grpB, s.hist = s.grpT[:sn.nGrp], s.grpB[:sn.nGrp], s.hist[:sn.nHist]
 	if sn.nGrp > 0 {
 		s.grpB[sn.nGrp-1] = sn.lastGrpB
+	}
+	if s.by != nil && sn.by != nil {
+		s.by.restore(sn.by)
 	}
 }
 
@@ -340,7 +350,31 @@ func (s *c11Sim) histString() string {
 
 // step performs one action. eff=false: the action changed nothing (the sequence is equivalent
 // to the one without it); disabled=true: the action is outside the property's range here.
+// c11BystanderActs: what the OTHER connection of the same process does between two steps of the
+// connection under test (part two-senders): whatever the package shares between senders, the
+// sender under test must keep meeting its own reference.
+var c11BystanderActs = []c11Action{c11Burst, c11Ack10_40, c11Send1}
+
 func (s *c11Sim) step(a c11Action) (eff, disabled bool, v *c11Viol) {
+	eff, disabled, v = s.step1(a)
+	if v != nil || s.by == nil || disabled {
+		return
+	}
+	if s.by.now < s.now {
+		if !s.by.gapOK(s.now) {
+			return
+		}
+		s.by.now = s.now
+	}
+	for _, ba := range c11BystanderActs {
+		if _, _, bv := s.by.step1(ba); bv != nil {
+			return eff, disabled, &c11Viol{"bystander-" + bv.Clause, "the other sender (" + s.by.g.String() + "): " + bv.Detail}
+		}
+	}
+	return
+}
+
+func (s *c11Sim) step1(a c11Action) (eff, disabled bool, v *c11Viol) {
 	switch a {
 	case c11Send1, c11Burst, c11Drain:
 		limit := 1
@@ -560,6 +594,7 @@ type c11Case struct {
 	Grid   c11Grid  `json:"grid"`
 	Seq    []string `json:"seq"`
 	Clause string   `json:"clause,omitempty"`
+	By     *c11Grid `json:"other_sender,omitempty"` // part two-senders
 }
 
 func c11SeqNames(seq []c11Action) []string {
@@ -579,6 +614,9 @@ func c11RunCase(c *c11Case) (v *c11Viol, at int, trace string) {
 	var tr strings.Builder
 	val, stack := evidence.Catch(func() {
 		s := c11NewSim(c.Grid)
+		if c.By != nil {
+			s.by = c11NewSim(*c.By)
+		}
 		if v = s.checkState(); v != nil {
 			return
 		}
@@ -616,6 +654,7 @@ type c11PartCfg struct {
 	name  string
 	alpha []c11Action
 	depth int
+	two   bool // a second sender of another rate/size/compensation setting is stepped after every step
 }
 
 func c11Depths(thorough bool) (seq, drain int) {
@@ -629,9 +668,11 @@ func c11Enumerate(sh *evidence.Shard) {
 	env := sh.Env()
 	dSeq, dDrain := c11Depths(env.Thorough())
 	parts := []c11PartCfg{
-		{"seq", c11AlphaSeq, dSeq},
-		{"drain", c11AlphaDrain, dDrain},
-		{"probe", c11AlphaProbe, dDrain + 1},
+		// (the small targeted parts first: on a loaded machine the deadline then cuts the big one)
+		{"two-senders", c11AlphaSeq, dDrain, true},
+		{"probe", c11AlphaProbe, dDrain + 1, false},
+		{"drain", c11AlphaDrain, dDrain, false},
+		{"seq", c11AlphaSeq, dSeq, false},
 	}
 	for _, pc := range parts {
 		p := sh.Part(pc.name, "enum")
@@ -664,6 +705,11 @@ func c11Enumerate(sh *evidence.Shard) {
 			}
 			g := c11Grid{Rate: c11Rates[ix[0]], Size: c11Sizes[ix[1]], RTTns: int64(c11RTTs[ix[2]]), Comp: c11Comp[ix[3]]}
 			q := &c11Search{sim: c11NewSim(g), alpha: pc.alpha, expired: env.Expired, classes: classes, gi: int(gi)}
+			var by *c11Grid
+			if pc.two {
+				by = &c11Grid{Rate: c11Rates[(ix[0]+1)%len(c11Rates)], Size: c11Sizes[(ix[1]+1)%len(c11Sizes)], RTTns: int64(c11RTTs[ix[2]]), Comp: !c11Comp[ix[3]]}
+				q.sim.by = c11NewSim(*by)
+			}
 			q.run(pc.depth)
 			p.Evaluations += q.steps
 			p.Count("sequences", q.seqs)
@@ -677,7 +723,7 @@ func c11Enumerate(sh *evidence.Shard) {
 			}
 			if q.bestV != nil {
 				seq := c11SeqNames(q.best)
-				c := &c11Case{Part: pc.name, Grid: g, Seq: seq, Clause: q.bestV.Clause}
+				c := &c11Case{Part: pc.name, Grid: g, Seq: seq, Clause: q.bestV.Clause, By: by}
 				sh.Violate(pc.name, c11Sig(pc.name, g, q.bestV.Clause, seq), q.bestV.Detail, c)
 			}
 			if gi%97 == 5 {
